@@ -53,6 +53,7 @@ fn foreign_init() -> Layout {
         tile_comp: 1,
         zooms: [0, 3, 1],
         coords: [0; 6],
+        zero_counters: 0,
     }
 }
 
